@@ -321,6 +321,97 @@ theorem writeLoop_total (now : Nat) (gz : Bool)
     simp only [writeLoop, h1, stage_total hne recs h2]
     exact writeLoop_total now gz recsOf rest _ (fun t f ht => h t f (by simp [ht]))
 
+
+/-! ### small facts used by Props -/
+
+theorem lookup_of_mem {α} : ∀ (s : List (Name × α)) (t : Name) (v : α),
+    (s.map (·.1)).Nodup → (t, v) ∈ s → s.lookup t = some v
+  | [], _, _, _, h => by simp at h
+  | (k, w) :: rest, t, v, hnd, h => by
+    simp only [List.map_cons, List.nodup_cons] at hnd
+    rcases List.mem_cons.mp h with e | e
+    · cases e
+      simp [List.lookup]
+    · have hne : t ≠ k := by
+        intro e'
+        subst e'
+        exact hnd.1 (List.mem_map_of_mem (f := (·.1)) e)
+      have : (t == k) = false := by simpa using hne
+      simp only [List.lookup, this]
+      exact lookup_of_mem rest t v hnd.2 e
+
+theorem mem_names {s : Schema} {t : Name} {f : List Field} (h : (t, f) ∈ s) : t ∈ s.names :=
+  List.mem_map_of_mem (f := (·.1)) h
+
+theorem contains_names {s : Schema} {t : Name} {f : List Field} (h : (t, f) ∈ s) :
+    s.names.contains t = true := by
+  simp [mem_names h]
+
+theorem keeps_plain {s : Schema} {t : Name} {f : List Field} (h : (t, f) ∈ s) : keeps s false t = true := by
+  simp [keeps, mem_names h]
+
+theorem keeps_skeleton {s : Schema} {t : Name} {f : List Field} (h : (t, f) ∈ s) :
+    keeps s true t = coreFiles.contains t := by
+  simp [keeps, mem_names h]
+
+theorem cleanupOne_keep (r : RelFiles) : cleanupOne true false r = r := by
+  cases r with
+  | mk tx gz => cases tx <;> cases gz <;> simp [cleanupOne]
+
+theorem refreshRecords_local (old : Schema) (b : Bool) (fs1 fs2 : Files) (t : Name) (f : List Field)
+    (h : fs1 t = fs2 t) : refreshRecords old b fs1 t f = refreshRecords old b fs2 t f := by
+  simp [refreshRecords, h]
+
+
+/-! ### matching columns by name -/
+
+theorem lookupLast_zip_not_mem : ∀ (names : List Name) (r : Rec) (n : Name), n ∉ names →
+    lookupLast (names.zip r) n = none
+  | [], _, _, _ => by simp [lookupLast]
+  | _ :: _, [], _, _ => by simp [lookupLast]
+  | k :: ns, c :: cs, n, h => by
+    simp only [List.mem_cons, not_or] at h
+    have ih := lookupLast_zip_not_mem ns cs n h.2
+    have hk : ¬ k = n := fun e => h.1 e.symm
+    simp [lookupLast, ih, hk]
+
+theorem lookupLast_zip_nodup : ∀ (names : List Name) (r : Rec), names.Nodup →
+    ∀ (i : Nat) (h1 : i < names.length) (h2 : i < r.length),
+      lookupLast (names.zip r) names[i] = some r[i]
+  | [], _, _, i, h1, _ => by simp at h1
+  | _ :: _, [], _, i, _, h2 => by simp at h2
+  | k :: ns, c :: cs, hnd, i, h1, h2 => by
+    rw [List.nodup_cons] at hnd
+    cases i with
+    | zero =>
+      simp only [List.getElem_cons_zero, List.zip_cons_cons, lookupLast]
+      rw [lookupLast_zip_not_mem ns cs k hnd.1]
+      simp
+    | succ j =>
+      simp only [List.getElem_cons_succ, List.zip_cons_cons, lookupLast]
+      rw [lookupLast_zip_nodup ns cs hnd.2 j (by simpa using h1) (by simpa using h2)]
+
+/-! ### text input -/
+
+theorem linesLoop_length (fields : List Field) (colnames : List LVal) (sp : Splitter) :
+    ∀ (lines : List Text) (i : Nat) (seen : List LVal) (recs : List (List LVal)),
+      linesLoop fields colnames sp i seen lines = .ok recs → recs.length = lines.length
+  | [], _, _, recs, h => by
+    simp only [linesLoop, Except.ok.injEq] at h
+    subst h
+    rfl
+  | l :: ls, i, seen, recs, h => by
+    simp only [linesLoop] at h
+    split at h
+    · cases h
+    · rename_i r seen' _
+      split at h
+      · cases h
+      · rename_i rs hrs
+        simp only [Except.ok.injEq] at h
+        subst h
+        simp [linesLoop_length fields colnames sp ls (i + 1) seen' rs hrs]
+
 end L
 
 end Verif.C12
